@@ -1,22 +1,7 @@
-from . import matcher_rules as mr
+from . import dialect_rules as dr
 META = {}
 def run(rep):
-    mr.rule_sink(rep)
-    mr.rule_roles(rep)
-    mr.rule_keyword_types(rep)
-    mr.rule_dialect_triple(rep)
-    mr.rule_text_extraction(rep)
-    mr.rule_docstring_fsm(rep)
-    mr.rule_docstring_own(rep)
-    mr.rule_other_text(rep)
-    mr.rule_token_table(rep)
-    mr.rule_reset(rep)
-from . import builder_rules as br
-_r=run
-def run(rep):
-    _r(rep)
-    br.rule_docstring_ast(rep)
-    br.rule_rect(rep)
-    br.rule_locations(rep)
-    br.rule_ids(rep)
-    mr.rule_reset(rep, "C15.reset", classes=("gherkin.ast_builder.AstBuilder","gherkin.token_formatter_builder.TokenFormatterBuilder"))
+    dr.rule_data(rep)
+    dr.rule_dialect(rep)
+    dr.rule_shared_table(rep)
+    dr.rule_header(rep)
